@@ -50,6 +50,7 @@ type LogCase struct {
 	Topics   [][]byte // each 32 bytes
 	Data     []byte
 	HasHuge  bool // data contains a head/length value >= 2^20 (harness knowledge, used to avoid re-crashing)
+	HasLarge bool // data contains a head/length value >= 2^16 (only an ordering hint for allocation re-measurement)
 }
 
 // ---------- JSON forms (samples, replay values) ----------
@@ -493,8 +494,9 @@ func topicVariants(s sig) [][][]byte {
 }
 
 type dataVariant struct {
-	data []byte
-	huge bool
+	data  []byte
+	huge  bool
+	large bool
 }
 
 func buildLogSet(s sig) *LogSet {
@@ -523,9 +525,9 @@ func buildLogSet(s sig) *LogSet {
 	ls := &LogSet{res: map[Ref][]Resolution{}}
 	for ti, t := range tv {
 		for di, d := range dv {
-			ls.Logs = append(ls.Logs, &LogCase{SameAddr: true, Topics: t, Data: d.data, HasHuge: d.huge})
+			ls.Logs = append(ls.Logs, &LogCase{SameAddr: true, Topics: t, Data: d.data, HasHuge: d.huge, HasLarge: d.large || d.huge})
 			if ti == 0 || di == 0 {
-				ls.Logs = append(ls.Logs, &LogCase{SameAddr: false, Topics: t, Data: d.data, HasHuge: d.huge})
+				ls.Logs = append(ls.Logs, &LogCase{SameAddr: false, Topics: t, Data: d.data, HasHuge: d.huge, HasLarge: d.large || d.huge})
 			}
 		}
 	}
@@ -612,7 +614,8 @@ func fillContent(d []byte, start int, kind int, l *big.Int) {
 	}
 }
 
-func isHugeWord(w []byte) bool { return new(big.Int).SetBytes(w).Cmp(pow2(20)) >= 0 }
+func isHugeWord(w []byte) bool  { return new(big.Int).SetBytes(w).Cmp(pow2(20)) >= 0 }
+func isLargeWord(w []byte) bool { return new(big.Int).SetBytes(w).Cmp(pow2(16)) >= 0 }
 
 func putWord(d []byte, at int, w []byte) {
 	if at < len(d) {
@@ -681,7 +684,7 @@ func fullData(slot int, use uint8, thorough bool) []dataVariant {
 					d := append([]byte{}, base...)
 					putWord(d, h, lw)
 					fillContent(d, h+32, k, lb)
-					out = append(out, dataVariant{data: d, huge: huge || isHugeWord(lw)})
+					out = append(out, dataVariant{data: d, huge: huge || isHugeWord(lw), large: isLargeWord(lw)})
 				}
 			}
 		}
@@ -743,7 +746,7 @@ func reducedData(w0, w1 uint8, thorough bool) []dataVariant {
 	}
 	build := func(a, b slotScenario, n int) dataVariant {
 		d := rep(0xEE, 256)
-		huge := false
+		huge, large := false, false
 		for slot, sc := range []slotScenario{a, b} {
 			if sc.head == nil {
 				continue
@@ -754,11 +757,12 @@ func reducedData(w0, w1 uint8, thorough bool) []dataVariant {
 				t := 64 + 96*slot
 				putWord(d, t, sc.length)
 				huge = huge || isHugeWord(sc.length)
+				large = large || isLargeWord(sc.length)
 				tail := d[:t+32+64]
 				fillContent(tail, t+32, sc.content, new(big.Int).SetBytes(sc.length))
 			}
 		}
-		return dataVariant{data: d[:n], huge: huge}
+		return dataVariant{data: d[:n], huge: huge, large: large}
 	}
 	var out []dataVariant
 	for _, a := range s0 {
